@@ -178,6 +178,15 @@ pub fn run(args: &Args) -> i32 {
             }
         }
     }
+    // size / pattern sweep on the clean path: every packet size 28..=1024 x payload patterns
+    // (the expected checksum is recomputed from size and pattern on the receive side)
+    for cell in &dublin4 {
+        for size in 28..=1024u16 {
+            for pattern in [0x00u8, 0x01, 0xaa, 0xff] {
+                tasks.push(Task { cell: *cell, l: 3, nat_mask: 0, silent_mask: 0, target_answers: true, size, pattern, bound: 0, init: 33434, rounds: 1 });
+            }
+        }
+    }
     // every other cell: not applicable, once (with a rewriting device on the path)
     for cell in all_cells() {
         if !applicable(&cell) {
@@ -276,7 +285,7 @@ pub fn run(args: &Args) -> i32 {
     rep.observe("hop_rounds_expected_detected", json!(counts[0]));
     rep.observe("hop_rounds_expected_not_detected", json!(counts[1]));
     rep.observe("hop_rounds_expected_not_applicable", json!(counts[2]));
-    rep.set("rule", json!("IPv4/UDP/Dublin x ports {fixed src, fixed dest, fixed both} x (size,pattern) {28,29,84,1024}x{00,AA}: EVERY path with target distance 1..5, every placement of <= 2 address/port-rewriting devices, every subset of silent hops, target answering or silent; 2 rounds; all executions with <= 2 (quick) / 3 (thorough) scheduling deviations (delay, loss, reorder). Oracle straight from the statement on the simulator's ground truth (UDP checksum each hop quoted vs previous responding hop / probe as sent), compared with Hop::last_nat_status() in the snapshot taken at each publish. Value sweep: every initial sequence 0..=64511 (every value of the varying port, so every UDP checksum residue incl. 0x0000/0xFFFF) on an undisturbed 3-hop path without rewriting: no hop may show NAT. All other cells once: NotApplicable"));
+    rep.set("rule", json!("IPv4/UDP/Dublin x ports {fixed src, fixed dest, fixed both} x (size,pattern) {28,29,84,1024}x{00,AA}: EVERY path with target distance 1..5, every placement of <= 2 address/port-rewriting devices, every subset of silent hops, target answering or silent; 2 rounds; all executions with <= 2 (quick) / 3 (thorough) scheduling deviations (delay, loss, reorder). Oracle straight from the statement on the simulator's ground truth (UDP checksum each hop quoted vs previous responding hop / probe as sent), compared with Hop::last_nat_status() in the snapshot taken at each publish. Value sweep: every initial sequence 0..=64511 (every value of the varying port, so every UDP checksum residue incl. 0x0000/0xFFFF) on an undisturbed 3-hop path without rewriting: no hop may show NAT; likewise every packet size 28..=1024 x payload patterns {00,01,aa,ff}. All other cells once: NotApplicable"));
     for s in samples {
         rep.sample(s);
     }
